@@ -503,7 +503,8 @@ func setStr(s []int) string {
 // Run executes the history and compares every verdict with the model.
 func Run(spec Spec, x *ev.Ctx, obs Observer) (*Result, error) {
 	id := worldSeq.Add(1)
-	w := &World{spec: &spec, origin: world.NewOrigin(), origin2: world.NewOrigin(), leaves: map[string][][]*x509.Certificate{}}
+	o1 := world.NewOrigin()
+	w := &World{spec: &spec, origin: o1, origin2: o1.SamePrefixOn(), leaves: map[string][][]*x509.Certificate{}}
 	defer w.origin.Close()
 	defer w.origin2.Close()
 	w.base = fmt.Sprintf("sim-%d-%d", os.Getpid(), id)
